@@ -556,7 +556,7 @@ def _to_shape_list(region_list, coordinate_system='fk5'):
         if reg_type == 'text':
             meta['text'] = meta.get('text', meta.pop('label', ''))
 
-        include = region.meta.pop('include', True)
+        include = region.meta.get('include', True)
 
         shape_list.append(_Shape(coordsys, reg_type, new_coord, meta, False,
                                  include))
